@@ -42,6 +42,8 @@ func init() {
 			aliasRuleFiltered(ruleC12Whole, "C12.whole", "C02.noskip", 1, func(o Oblig) bool { return strings.Contains(o.Key, "back edge") }),
 			// the walk inspects the components of the entry's path below the destination and nothing else: a walk
 			// that also looks at the destination itself refuses every entry when that is a link to a directory
+			// what is left out is decided on the entry's name relative to the slug root, as the rules are written for
+			aliasRuleFiltered(ruleWalkRoles("C03.roles"), "C03.roles", "C02.entryname", 1, func(o Oblig) bool { return strings.Contains(o.Key, "ignore rules get the entry name") }),
 			aliasRuleFiltered(ruleC01Walk, "C01.walk", "C02.walked", 1, func(o Oblig) bool { return strings.Contains(o.Key, "walked path") })},
 		NotDecided: []string{
 			"round-trip equality itself: tar rounding of mtimes, PAX name handling, Perm() arithmetic, content bytes",
